@@ -55,6 +55,20 @@ func (s *State) Assume(t *Term) {
 	s.pc = append(s.pc, Implies(g, t))
 }
 
+// keyFacts marks hypotheses that come from `assert` clauses of a contract: the stepping stones the contract
+// author put before a hard obligation. Local proof attempts start from them.
+var keyFacts = map[*Term]bool{}
+
+func (s *State) AssumeKey(t *Term) {
+	if t == nil || t.IsTrue() {
+		return
+	}
+	g := And(s.guards...)
+	h := Implies(g, t)
+	keyFacts[h] = true
+	s.pc = append(s.pc, h)
+}
+
 func (s *State) Declare(obj types.Object, v Value) {
 	s.vars[obj] = v
 	s.names[obj.Name()] = obj
